@@ -17,17 +17,17 @@ ASSUMPTIONS = ["randomResolve=false only (the random resolution is not modelled)
                "nucleotide alphabet only for the sequence variant; characters of align.IupacCode in either case; other "
                "characters (X . ? *) get no state in asr.parsimonyUPPASS and are outside the property's quantifier: not generated",
                "site-by-site comparison: the character variant is given the upper-cased nucleotide as the state"]
-LEVEL_TEXT = ("Theorems (Properties/C12.v, 30 statements, closed) for all well-formed trees of any degree and all tip-state "
+LEVEL_TEXT = ("Theorems (Properties/C12.v, 33 statements, closed) for all well-formed trees of any degree and all tip-state "
               "assignments (single states or non-empty sets): the up-pass step count = the definitional minimum over all "
               "labellings (Hartigan); the minimum and the step count are invariant under Reroot; DOWNPASS reports at every "
               "inner node exactly the states of the most-parsimonious labellings; DELTRAN and ACCTRAN report only such states; "
               "an output unambiguous at every node is most parsimonious (three algorithms); tips are never altered "
               "(ACCTRAN: when tips are skipped or hold single states; the unconditional statement is refuted with the witness "
-              "of the fixed defect); instantiated on ParsimonyAcr and per site on ParsimonyAsr")
+              "of the fixed defect); instantiated on ParsimonyAcr and per site on ParsimonyAsr; the passes commute with an "
+              "injective embedding of the alphabet, hence the sequence variant at an unambiguous site = the character variant")
 LEVEL_NOTE = ("The model is tied to acr/asr by the correspondence check (steps, every node comment, returned map); the oracle "
-              "(Sankoff DP + brute force on small trees, extracted from Spec/Parsimony.v) judges Go's output directly. Not "
-              "proved on the model: site-by-site agreement of the sequence and the character variant (checked by the oracle on "
-              "Go's outputs only); random resolution is not modelled.")
+              "(Sankoff DP + brute force on small trees, extracted from Spec/Parsimony.v) judges Go's output directly. Random "
+              "resolution is not modelled.")
 
 STATE_POOLS = [["A", "B", "C", "D"], ["A", "B", "C", "D"], ["0", "1", "2", "3"], ["b", "B", "10", "9"],
                ["x y", "X", "-", "ab"], ["T", "F", "N", "U"]]
